@@ -36,7 +36,9 @@ Record cinv (c : cache) : Prop := {
   ci_dom_lat : forall T v cf, In T truth -> lat_get (d_id T) (c_latest c) = Some (v, cf) -> v <= d_ver T /\ cf <= d_conf T;
   ci_dom_id : forall x T, In x (c_sorted c) -> In T truth -> r_id x = d_id T -> r_ver x <= d_ver T /\ r_conf x <= d_conf T;
   ci_ok : forall x, In x (c_sorted c) -> entry_ok x;
-  ci_len : forall x, In x (c_sorted c) -> length (r_sepochs x) = length (r_peers x) }.
+  ci_len : forall x, In x (c_sorted c) -> length (r_sepochs x) = length (r_peers x);
+  (* no current peer sits on a store the cache knows to be a tombstone *)
+  ci_tomb : forall T p, In T truth -> In p (d_peers T) -> existsb (N.eqb (snd p)) (c_tomb c) = false }.
 
 Lemma T_contains_start T : In T truth -> tcontains T (d_start T) = true.
 Proof. intros H. apply contains_spec. split; [apply leb_refl|]. destruct (tw_nonempty _ Htw T H) as [E|E]; [left|right]; exact E. Qed.
@@ -140,6 +142,9 @@ Proof.
   assert (Hse : c_sepochs c' = c_sepochs c).
   { clear - Ei. rewrite insert_region_unfold in Ei. destruct (stale_by_latest c r); [discriminate|].
     destruct (remove_intersecting r (c_sorted c)) as [[l1 dl] st]. destruct st; [discriminate|]. cbv zeta in Ei. injection Ei as <-. reflexivity. }
+  assert (Htb : c_tomb c' = c_tomb c).
+  { clear - Ei. rewrite insert_region_unfold in Ei. destruct (stale_by_latest c r); [discriminate|].
+    destruct (remove_intersecting r (c_sorted c)) as [[l1 dl] st]. destruct st; [discriminate|]. cbv zeta in Ei. injection Ei as <-. reflexivity. }
   split; [|split; [exact Hse|split; [apply H3; left; reflexivity|intros x Hx; apply H3 in Hx; destruct Hx as [Hx|[Hx _]]; [left|right]; exact Hx]]].
   constructor.
   - exact H6.
@@ -171,6 +176,7 @@ Proof.
     + rewrite I10, F2. congruence.
   - intros x Hx. apply H3 in Hx. destruct Hx as [->|[Hx _]]; [|apply (ci_len c Hc x Hx)].
     rewrite I6. unfold r1, inherit, with_work. destruct deleted as [|old t]; [exact Hlen|]. destruct (r_reason old =? 1); exact Hlen.
+  - intros T' p HT' Hp. rewrite Htb. apply (ci_tomb c Hc T' p HT' Hp).
 Qed.
 
 (* ---- updating an entry in place ---- *)
@@ -207,5 +213,6 @@ Proof.
   - intros y T Hy HT Hi. destruct (Hpre y Hy) as [x [Hx ->]]. destruct (Hg x) as [Ha [_ [_ [Hb [Hc' _]]]]]. rewrite Ha in Hi. rewrite Hb, Hc'. apply (ci_dom_id c Hc x T Hx HT Hi).
   - intros y Hy. apply Hmem in Hy. destruct Hy as [->|[Hy _]]; [exact Hok|apply (ci_ok c Hc y Hy)].
   - intros y Hy. apply Hmem in Hy. destruct Hy as [->|[Hy _]]; [exact Hlen|apply (ci_len c Hc y Hy)].
+  - intros T p HT Hp. apply (ci_tomb c Hc T p HT Hp).
 Qed.
 End Inv.
